@@ -258,6 +258,10 @@ def power(I, a, b, lineno=None):
         return _mk(I, sym.sq(realish(x)), a, b)
     x, y = realish(x), realish(b.t)
     safety(I, 'power: base >= 0, and base > 0 unless exponent > 0', z3.And(x >= 0, z3.Or(x > 0, y > 0)), g, lineno)
+    # if the path condition already implies base > 0 the zero case is dropped from the term (keeps VCs small)
+    known_pos = I.path is not None and I.prune and not I.feasible(z3.And(g, z3.Not(x > 0)) if g is not None else z3.Not(x > 0))
+    if known_pos:
+        return _mk(I, sym.ex(y * sym.lg(x)), a, b)
     return _mk(I, z3.If(x == 0, RV(0), sym.ex(y * sym.lg(x))), a, b)
 
 
@@ -621,6 +625,8 @@ def getattr_(I, base, attr, frame, lineno=None):
     if isinstance(base, Obj):
         if attr in base.fields:
             return base.fields[attr]
+        if attr == '__class__':
+            return base.cls
         c, node = base.cls.lookup(attr)
         if node is None:
             # PylifeSignal.__getattr__ fallbacks are not modelled
@@ -1555,7 +1561,47 @@ def make_libs(I):
         'api': Opaque('pd.api'),
     })
     optimize = LibNS('optimize', {'newton': L(newton)})
-    stats_norm = LibNS('norm', {})
+    def norm_args(x, loc, scale):
+        x = lift(x)
+        t = realish(as_arith(x).t)
+        if loc is not None:
+            t = t - realish(lift(loc).t)
+        if scale is not None:
+            sc = lift(scale)
+            safety(I, 'norm scale > 0', sc.t > 0, guards(I, x, sc))
+            t = t / realish(sc.t)
+        return x, t
+
+    def norm_ppf(p, loc=None, scale=None):
+        assumed(I, 'norm')
+        assumed(I, 'transcendental')
+        p = lift(p)
+        safety(I, 'norm.ppf argument in (0,1)', z3.And(p.t > 0, p.t < 1), p.guard)
+        r = sym.Pinv(realish(p.t))
+        if scale is not None:
+            r = r * realish(lift(scale).t)
+        if loc is not None:
+            r = r + realish(lift(loc).t)
+        return p.like(r)
+
+    def norm_cdf(x, loc=None, scale=None):
+        assumed(I, 'norm')
+        assumed(I, 'transcendental')
+        x, t = norm_args(x, loc, scale)
+        kinds = [v for v in (x, loc, scale) if isinstance(v, SV)]
+        return SV(sym.Phi(t), guard=guards(I, *kinds), kind=merge_kind(*kinds))
+
+    def norm_pdf(x, loc=None, scale=None):
+        assumed(I, 'norm')
+        assumed(I, 'transcendental')
+        x, t = norm_args(x, loc, scale)
+        kinds = [v for v in (x, loc, scale) if isinstance(v, SV)]
+        r = sym.phi_(t)
+        if scale is not None:
+            r = r / realish(lift(scale).t)
+        return SV(r, guard=guards(I, *kinds), kind=merge_kind(*kinds))
+
+    stats_norm = LibNS('norm', {'ppf': Builtin('ppf', norm_ppf), 'cdf': Builtin('cdf', norm_cdf), 'pdf': Builtin('pdf', norm_pdf)})
     stats = LibNS('stats', {'norm': stats_norm})
     scipy = LibNS('scipy', {'optimize': optimize, 'stats': stats})
     libs = {'numpy': np_, 'np': np_, 'pandas': pd_, 'pd': pd_, 'scipy': scipy, 'scipy.optimize': optimize,
